@@ -5,7 +5,8 @@ EXTENDS Percent, Json
 CONSTANT MaxText
 
 \* the property's symbol set: PCT 0 9 a F g + SPACE and a non-ASCII character (e-acute, two UTF-8 bytes)
-Syms == { <<37>>, <<48>>, <<57>>, <<97>>, <<70>>, <<103>>, <<43>>, <<32>>, <<195, 169>> }
+\* plus (lessons L3) two non-ASCII digits: ARABIC-INDIC DIGIT THREE U+0663 and FULLWIDTH DIGIT ONE U+FF11
+Syms == { <<37>>, <<48>>, <<57>>, <<97>>, <<70>>, <<103>>, <<43>>, <<32>>, <<195, 169>>, <<217, 163>>, <<239, 188, 145>> }
 RECURSIVE Flat(_)
 Flat(ss) == IF ss = <<>> THEN <<>> ELSE Head(ss) \o Flat(Tail(ss))
 SeqsUpTo(S, n) == UNION { [1..k -> S] : k \in 0..n }
@@ -22,7 +23,8 @@ EscCount == res # "run" => ((res = "ok") <=> (IsHex(text[2]) /\ IsHex(text[3])))
 \* every byte pair round-trips and the encoding has the right shape
 PairInit == text \in { <<a, b>> : a \in 0..255, b \in 0..255 } /\ pos = 0 /\ out = <<>> /\ res = "pair"
 PairNext == FALSE /\ UNCHANGED vars
-PairInv == RoundTrip(text) /\ EncShape(text) /\ RoundTrip(<<text[1]>>)
+EncAlgoLemma == EncAlgoByte(text[1], Dev) = EncByte(text[1])
+PairInv == RoundTrip(text) /\ EncAlgoLemma /\ EncShape(text) /\ RoundTrip(<<text[1]>>)
            /\ Enc(text) = EncByte(text[1]) \o EncByte(text[2])
 
 \* emission
